@@ -474,3 +474,49 @@ def run_helpers(repo, tier, contracts_of, helpers=None):
             g["function"] = f"{rel}::{qual}"
             obls.append(g)
     return {"obligations": obls, "functions": fns}
+
+
+# ==================================================================================================================
+# key expressions of the content-type tables: `<table>.get(<key>)` with <key> a pure string expression over the part name
+# ==================================================================================================================
+_KEYS = {}
+
+
+def key_proved(mod, e, n, repo, contracts_of):
+    """True when the engine PROVES, for every str `n` that contains a dot, <e> == LOWER(text after the last dot of n) -- the exact models of
+    rsplit(sep, 1) / rpartition / `in` / conditional expressions / indexing, str.lower as the function LOWER.  Anything else (not executable,
+    may raise, solver model -- LOWER is uninterpreted, so a model is no refutation) is None: the caller falls back to the recognised shapes
+    and to the bounded evaluation on EXT_CORPUS.  Never raises."""
+    from pyvc.verify import p_str
+    key = (repo, mod.rel, ast.unparse(e), n)
+    if key in _KEYS:
+        return _KEYS[key]
+    res = None
+    try:
+        f = ast.parse(f"def _c14_key({n}):\n    return {ast.unparse(e)}\n").body[0]
+        for x in ast.walk(f):
+            if hasattr(x, "lineno"):
+                x.lineno = getattr(e, "lineno", 1)
+                x.end_lineno = getattr(e, "end_lineno", x.lineno)
+        reg = Registry()
+        for c in contracts_of(reg):
+            reg.add(c)
+        reg.ext_models["str.lower"] = _m_lower
+
+        def spec(c):
+            t, r = c.args[n].t, c.result
+            if not isinstance(r, VStr):
+                return z3.BoolVal(False)
+            return z3.Implies(z3.Contains(t, z3.StringVal(".")), r.t == LOWER(ext_of(t)))
+        c = FnContract(target=f"{mod.rel}::_c14_key", params=[(n, p_str())], ensures=[("key", spec)], raises=[], total=True)
+        ex = C14Executor(mod, reg, Universe(repo))
+        ex.contract = c
+        ex.oid_prefix = "key"
+        got, _cov = verify.generate(ex, c, mod, f)
+        ds = [verify.discharge(ob, None, {}) for ob in got.values()]
+        if "key/ensures#key" in got and len(ds) >= 2 and all(d["status"] == "proved" for d in ds):
+            res = True
+    except Exception:  # noqa
+        res = None
+    _KEYS[key] = res
+    return res
